@@ -637,6 +637,9 @@ func (sc *SCtx) call(x SCall) (Val, types.Type, error) {
 		if err != nil {
 			return Val{}, nil, err
 		}
+		if len(x.Args) != 2 {
+			return Val{}, nil, fmt.Errorf("iface(x, \"T\") expects two arguments")
+		}
 		s, ok := x.Args[1].(SStrLit)
 		if !ok {
 			return Val{}, nil, fmt.Errorf("iface(x, \"T\") expects a string literal type")
